@@ -26,6 +26,7 @@ type History struct {
 
 func histories(tier string) []History {
 	h := []History{
+		{Name: "converter", Converter: true, Events: []string{"api:import:P1", "drain", "api:addtag:tag/p=cport:1", "api:converters:tag/p=conv", "drain", "api:import:P3", "drain", "api:import:P2", "drain"}},
 		{Name: "tags-imports-merge", Events: []string{"api:addtag:tag/d=cdata:foo", "api:color:tag/d=#abcdef", "api:config:on", "api:webhook:http://127.0.0.1:9/hook", "api:import:P1", "drain", "api:import:P2", "drain",
 			"api:addtag:mark/m=id:0", "api:markadd:mark/m=1", "api:addtag:tag/r=-tag:d", "drain", "api:import:P3", "drain", "api:deltag:tag/r", "api:rename:mark/m=mark/n", "drain"}},
 		{Name: "merge-overtaken-by-import", Events: []string{"api:import:P1", "step:import", "step:import", "api:import:P2", "step:import", "step:import", "api:import:P3",
@@ -33,7 +34,6 @@ func histories(tier string) []History {
 	}
 	if tier == "thorough" {
 		h = append(h,
-			History{Name: "converter", Converter: true, Events: []string{"api:import:P1", "drain", "api:addtag:tag/p=cport:1", "api:converters:tag/p=conv", "drain", "api:import:P3", "drain", "api:converters:tag/p=", "drain"}},
 			History{Name: "queued-imports-and-edits", Events: []string{"api:import:P1", "api:import:P2", "api:import:P3", "api:addtag:tag/d=data:foo", "step:import", "api:updtag:tag/d=sdata:bar", "drain", "api:import:P4", "drain"}},
 		)
 	}
@@ -306,7 +306,16 @@ func (pl *plan) recover(c crashCase, convBin, scratch string, idx int) mc.CaseRe
 	var res mc.CaseResult
 	name := pl.caseName(c)
 	bad := func(sym, f string, a ...any) {
-		res.Violations = append(res.Violations, mc.Violation{Symptom: sym, Key: generalName(name), Msg: name + ": " + fmt.Sprintf(f, a...),
+		key := generalName(name)
+		if strings.Contains(sym, ".c16.") || strings.Contains(sym, ".c06.") || strings.Contains(sym, ".c09.") {
+			// invariant violations carry their own description in the key (narrow known-finding matchers)
+			d := fmt.Sprintf(f, a...)
+			if len(d) > 200 {
+				d = d[:200]
+			}
+			key += " | " + d
+		}
+		res.Violations = append(res.Violations, mc.Violation{Symptom: sym, Key: key, Msg: name + ": " + fmt.Sprintf(f, a...),
 			Replay: map[string]any{"history": pl.hist.Name, "events": pl.hist.Events, "mutations": c.Prefix, "cut": c.Cut}})
 	}
 	fs := pl.base.Clone()
@@ -431,6 +440,11 @@ func (pl *plan) recover(c crashCase, convBin, scratch string, idx int) mc.CaseRe
 		for _, v := range svc.CheckC06(w, s) {
 			bad("c12.after-restart."+v.Symptom, "%s", v.Msg)
 		}
+		if pl.hist.Converter {
+			for _, v := range svc.CheckC16(w, s, true) {
+				bad("c12.after-restart."+v.Symptom, "%s", v.Msg)
+			}
+		}
 	}
 	// continuation
 	for _, call := range []string{"import:P4", "addtag:tag/z=cport:1"} {
@@ -442,14 +456,43 @@ func (pl *plan) recover(c crashCase, convBin, scratch string, idx int) mc.CaseRe
 	if !drain() {
 		return res
 	}
-	if s, err := w.Snapshot(0); err == nil {
+	judge := func(phase string) {
+		s, err := w.Snapshot(0)
+		if err != nil {
+			bad("c12."+phase+".unreadable", "%v", err)
+			return
+		}
 		for _, v := range svc.CheckQuiescent(w, s) {
-			bad("c12.after-continuation."+v.Symptom, "%s", v.Msg)
+			bad("c12."+phase+"."+v.Symptom, "%s", v.Msg)
 		}
 		for _, v := range svc.CheckC06(w, s) {
-			bad("c12.after-continuation."+v.Symptom, "%s", v.Msg)
+			bad("c12."+phase+"."+v.Symptom, "%s", v.Msg)
+		}
+		if pl.hist.Converter {
+			for _, v := range svc.CheckC16(w, s, true) {
+				bad("c12."+phase+"."+v.Symptom, "%s", v.Msg)
+			}
 		}
 	}
+	judge("after-continuation")
+	// whatever the first recovery repaired or appended must itself survive a clean restart
+	before, _ := visible(w)
+	if err := w.Restart(); err != nil {
+		bad("c12.second-restart-failed", "%v", err)
+		return res
+	}
+	if !drain() {
+		return res
+	}
+	after, err := visible(w)
+	if err != nil {
+		bad("c12.second-restart.unreadable", "%v", err)
+		return res
+	}
+	if !mapsEqual(before, after) {
+		bad("c12.second-restart.streams-changed", "visible streams before the second (clean) restart %v, after it %v", before, after)
+	}
+	judge("after-second-restart")
 	res.Outcome = fmt.Sprintf("tags=%d vis=%d", len(gotTags), len(gotVis))
 	res.Counters = map[string]int64{"recovered": 1}
 	if c.Cut >= 0 {
